@@ -9,6 +9,7 @@ CHECK = dict(
         "model profile database honouring the contract of profiledb.Default; passwords checked by the real agdpasswd authenticators (bcrypt at minimal cost, allow-all, unusable hashes)",
         "requests are built as the dnsserver package builds them: URL only on DoH, userinfo only on DoH, TLS server name only on DoH/DoT/DoQ, EDNS options on every transport",
         "device domains are lower-case, as produced from device_id_wildcards",
+        "httpserver run: a real dnsserver.ServerHTTPS (TLS, HTTP/1.1 client, one connection per request) on loopback in front of the real finder; an Authorization header of the Basic scheme (any letter case) with a decodable user:password value is credentials also when the user name is empty, every other header form is absence of credentials; the 60 s client time-out only guards against a dead fixture (inconclusive, never a verdict)",
         "cmd unit: rate-limit and dns sections are filled in by hand next to the parsed server_groups section; the handlers are made with dnssvc.NewHandlers as builder.initDNS makes them, over a recording profile database; interface listeners use the loopback interface lo (127.0.0.0/8), a case is discarded if it is not usable",
     ],
     units=[
@@ -16,6 +17,7 @@ CHECK = dict(
             dict(name="find", run="^TestVerifC03Find$", quick=80000, thorough=1000000, shards_quick=2, shards_thorough=8),
             dict(name="middleware", run="^TestVerifC03Middleware$", quick=20000, thorough=300000, shards_quick=1, shards_thorough=4),
             dict(name="concurrent", run="^TestVerifC03Concurrent$", quick=400, thorough=8000, shards_thorough=4, race=True),
+            dict(name="httpserver", run="^TestVerifC03HTTPServer$", quick=2000, thorough=24000, shards_thorough=4),
         ]),
         dict(name="cmd", dir="internal/cmd", src="C03/cmd", runs=[
             dict(name="server-groups-config", run="^TestVerifC03CmdServerGroups$", quick=500, thorough=24000, shards_quick=2, shards_thorough=6),
